@@ -57,6 +57,8 @@ def resolve_literal(prog, mod, cls, node, depth=0):
     v = _lit(node)
     if v is not None or depth > 4:
         return v
+    if isinstance(node, ast.Name) and cls is not None and prog.find_class_attr(mod, cls, node.id) is not None and depth > 0:
+        return resolve_literal(prog, mod, cls, prog.find_class_attr(mod, cls, node.id)[2], depth + 1)
     if isinstance(node, ast.Name) and node.id in mod.assigns:
         return resolve_literal(prog, mod, cls, mod.assigns[node.id], depth + 1)
     if pf.is_self_attr(node) and cls is not None:
@@ -415,8 +417,16 @@ class MapLeaf:
         def leaf(n, ui):
             if isinstance(n, tuple):
                 return None
-            if isinstance(n, ast.Name) and n.id in self.mod.assigns and depth < 4:
-                return self.const_units(self.mod.assigns[n.id], depth + 1)
+            if isinstance(n, ast.Name) and depth < 4:
+                r = self.prog.find_class_attr(self.mod, self.cls, n.id)  # class body names (_B = 0.5 / (_A - 1))
+                if r is not None:
+                    return self.const_units(r[2], depth + 1)
+                if n.id in self.mod.assigns:
+                    return self.const_units(self.mod.assigns[n.id], depth + 1)
+            if pf.is_self_attr(n) and depth < 4:
+                r = self.prog.find_class_attr(self.mod, self.cls, n.attr)
+                if r is not None:
+                    return self.const_units(r[2], depth + 1)
             return None
         return UnitInfer(leaf).u(expr)
 
@@ -1036,6 +1046,10 @@ def rule_sl_transpose(chk, prog):
     for nm in ("_get_rho_and_inh", "_get_drho_and_dinh", "get_derivative_wrt_unnormed_features"):
         if nm not in ms:
             raise core.AnalysisError("FeatNormalizerList.%s vanished" % nm)
+    res_ = hinline.class_resolver(prog, mod, cls, exclude=("_get_rho_and_inh", "_get_drho_and_dinh", "_check_shape"))
+    ms = dict(ms)
+    for nm in ("_get_drho_and_dinh", "get_derivative_wrt_unnormed_features"):
+        ms[nm] = hinline.inline_helpers(ms[nm], res_)  # a driver split into private helpers reads as one routine
     f_fwd, f_rev = ms["_get_drho_and_dinh"], ms["get_derivative_wrt_unnormed_features"]
     # accumulators handed to fill_bwd
     acc = {}
@@ -1620,6 +1634,10 @@ def rule_mask_symmetry(chk, prog):
             raise core.AnalysisError("FeatNormalizerList.%s vanished" % nm)
     modes = slmode_literals([ms["_get_rho_and_inh"], ms["_get_drho_and_dinh"], ms[LIST_ROUTINES[2][1]]])
     noted = set()
+    res_ = hinline.class_resolver(prog, mod, cls, exclude=("_get_rho_and_inh", "_get_drho_and_dinh", "_check_shape"))
+    ms = dict(ms)
+    for _, nm, _ in LIST_ROUTINES:
+        ms[nm] = hinline.inline_helpers(ms[nm], res_)
     for mode in modes + [mono.ELSE]:
         mname = "<else>" if mode is mono.ELSE else mode
         res = {}
@@ -1655,6 +1673,7 @@ def rule_mask_symmetry(chk, prog):
 
 def analyse(chk):
     prog = pf.Program(chk.tree, [TD, FN])
+    mono.link_imported_constants(prog)
     chk.rule("accumulate", "maps: every store to dfdx is += / -=; normalisers: dfdx '=', dfdrho/dfdinh and the "
                            "semilocal columns of df_dX0T '+='")
     chk.rule("index-set", "raw features read by fill_feat_ == raw features fill_deriv_ adds a derivative to")
